@@ -208,6 +208,19 @@ class ApplyLayoutCastSubviewGlobal(RewritePattern):
         if not isinstance(const_type.layout, builtin.NoneAttr):
             return
 
+        # the subview has to be one of the tiles the global is divided into: the global is a whole number of
+        # tiles, the subview has unit strides, keeps all dimensions, and (as far as known) starts at a tile
+        tile_shape = [prod(cast(int, stride.bound) for _, stride in tstride) for tstride in layout.data.tstrides]
+        static_offsets = subview.static_offsets.get_values()
+        static_strides = subview.static_strides.get_values()
+        if not len(tile_shape) == len(const_shape) == len(static_offsets) == len(subview.result.type.get_shape()):
+            return
+        for tile, shape, offset, stride in zip(tile_shape, const_shape, static_offsets, static_strides):
+            if shape % tile != 0 or stride != 1:
+                return
+            if offset != builtin.DYNAMIC_INDEX and offset % tile != 0:
+                return
+
         # find current strides
         current_stride = max(cast(int, stride.bound) * cast(int, stride.step) for _, _, stride in layout.data)
         new_tstrides: list[TiledStride] = []
